@@ -1050,6 +1050,37 @@ def _gait_init_out(res, ex):
 
 _GAIT = "env/unitree/g1/gait.py"
 
+# ------------------------------------------------------------------------------------------------ C09: PPO.train / train_epoch
+def _ppotrain_bind():
+    def flat_obj(term):
+        def batch_indices(ex, n, a, k):
+            if len(a) != 1 or set(k) != {"key"} or a[0].t != "(Z.of_nat B)":
+                fail(n, "batch_indices is not called with the learner's batch size and a key")
+            return Vec.base(f"(batch_indices B (perm {k['key'].t} (soa_len {term})))", "O")
+
+        def gather(ex, n, a, k):
+            if len(a) != 1 or k or not isinstance(a[0], Sc):
+                fail(n, "gather call form")
+            return Sc("O", f"(gather_soa d {term} {a[0].t})")
+        return Obj({"batch_indices": Prim(batch_indices), "gather": Prim(gather), "@name": O(term)}, "flat_buffer")
+    buf = Obj({"flatten_axes": Prim(lambda ex, n, a, k: flat_obj("(flatten_soa buf)") if not a and not k else fail(n, "flatten_axes with arguments")),
+               "returns": O("rets"), "values": O("vals"), "@name": O("buf")}, "rollout_buffer")
+
+    def train_batch(ex, n, a, k):
+        if len(a) != 3 or k:
+            fail(n, "train_batch call form")
+        x = f"(step ({a[0].t}, {a[1].t}) {a[2].t})"
+        return (Sc("O", f"(fst {x})"), Sc("O", f"(snd {x})"), Static(None))
+    stats = Obj({f: O("stat") for f in ("approx_kl", "total_loss", "policy_loss", "value_loss", "entropy_loss")}, "stats")
+    selfo = Obj({"num_epochs": Z("(Z.of_nat E)"), "batch_size": Z("(Z.of_nat B)"), "train_batch": Prim(train_batch),
+                 "explained_variance": Prim(lambda ex, n, a, k: O("ev"))}, "PPO")
+    m = _method("algorithm/ppo.py", "PPO", "train_epoch", selfo)
+    m.closure.scope = {}
+    selfo.fields["train_epoch"] = m
+    return {"self": selfo, "policy": O("pol"), "opt_state": O("opt"), "buffer": buf, "key": K("k"),
+            "@jax.tree.map": Prim(lambda ex, n, a, k: stats)}
+
+
 # ------------------------------------------------------------------------------------------------ C14: membership tests (per component)
 _SP_PRIMS = {"try_cast": Prim(lambda ex, n, a, k: a[0])}
 
@@ -1109,7 +1140,10 @@ KERNELS = {
                    lambda: {"self": Obj({"shape": (Z("(Z.of_nat (length perm))"),)}, "buffer"), "batch_size": Z("(Z.of_nat B)"), "key": K("k"),
                             "@jr.permutation": Prim(lambda ex, n, a, k: Vec.base("perm", "Z") if len(a) == 2 and not k and isinstance(a[0], Sc) and a[0].ty == "K"
                                                     and a[1].t == "(Z.of_nat (length perm))" else fail(n, "permutation call form"))},
-                   "(B : nat) (perm : list nat) (k : kpath)", lambda res, ex: [("rows", "list (list nat)", term_of(res))])],
+                   "(B : nat) (perm : list nat) (k : kpath)", lambda res, ex: [("rows", "list (list nat)", term_of(res))]),
+            Kernel("ppotrain", "algorithm/ppo.py", "PPO", "train", _ppotrain_bind,
+                   "{X OS A ST : Type} (stat : ST) (perm : kpath -> nat -> list nat) (step : X * OS -> soa A -> X * OS) (d : A) (B E : nat) (buf : soa2 A) (pol : X) (opt : OS) (k : kpath)",
+                   lambda res, ex: [("policy", "X", term_of(res[0])), ("opt_state", "OS", term_of(res[1]))])],
     "C12": [Kernel("oniterN", "algorithm/on_policy.py", "AbstractOnPolicyAlgorithm", "iteration", lambda: _oniter_bind(vec=True),
                    "{SS X OS BUF LOG CB SCB : Type} (N : nat) (collect1 : X -> SS -> kpath -> SS * BUF) "
                    "(train : X -> OS -> list BUF -> kpath -> X * OS * LOG) (ss_cb : list SS -> SCB) (cb_iter : CB -> Z -> SCB -> X -> OS -> kpath -> CB) "
@@ -1306,7 +1340,7 @@ def coq_text(pid, imports=()):
     return "\n".join(parts)
 
 
-IMPORTS = {"C14": ("Spaces",), "C09": ("Env",), "C10": ("Env",), "C19": ("Env", "OnPolicy", "Logging"), "C06": ("Env", "Replay"), "C01": ("Env",), "C13": ("Env",), "C04": ("Env", "OnPolicy"), "C05": ("Env", "OnPolicy", "Replay", "OffPolicy"), "C20": ("Gait",), "C11": ("Env", "Observers"), "C12": ("Env", "OnPolicy")}
+IMPORTS = {"C14": ("Spaces",), "C09": ("Env", "Batching"), "C10": ("Env",), "C19": ("Env", "OnPolicy", "Logging"), "C06": ("Env", "Replay"), "C01": ("Env",), "C13": ("Env",), "C04": ("Env", "OnPolicy"), "C05": ("Env", "OnPolicy", "Replay", "OffPolicy"), "C20": ("Gait",), "C11": ("Env", "Observers"), "C12": ("Env", "OnPolicy")}
 
 
 def generate(pid, coq_dir: Path):
